@@ -5,7 +5,8 @@ Superset of ``vlib.build.build_space``.  Additional leaf kinds / options::
     tensor / pspace  "weighting": {"type": "custom", "which": "inner|norm|dist"}
         a fixed, named custom function (see CUSTOM below)
     tensor           array weightings are cast to the real dtype of the space
-                     (NumPy refuses float64 weights on a float32 space)
+                     unless the descriptor says "as64": true (float64 weights
+                     as given)
     {"kind": "discr_coords", "coords": [[..], ..], "min": [..], "max": [..],
      "shape": [..], "uniform": bool, "dtype": .., "exponent": ..,
      "weighting": null | const | array}
@@ -99,9 +100,10 @@ def tensor_kwargs(sd, shape):
         if w['type'] == 'const':
             kwargs['weighting'] = float(w['value'])
         elif w['type'] == 'array':
-            kwargs['weighting'] = np.asarray(
-                w['data'], dtype=float).reshape(shape).astype(
-                    _real_dtype(sd.get('dtype', 'float64')))
+            arr = np.asarray(w['data'], dtype=float).reshape(shape)
+            if not w.get('as64'):
+                arr = arr.astype(_real_dtype(sd.get('dtype', 'float64')))
+            kwargs['weighting'] = arr
         elif w['type'] == 'custom':
             which = w['which']
             key = 'inner' if which == 'inner_b' else which
